@@ -257,6 +257,9 @@ func init() {
 				start = 0
 			}
 			if end < 0 {
+				if tot > 0 && start == 0 {
+					return UnspecRO("BITPOS with an end before the start of the string (version dependent clamp)")
+				}
 				end = 0
 			}
 			if end >= tot {
@@ -376,6 +379,7 @@ func bitfield(c *Ctx, a []string, ro bool) Exp {
 	syn := false
 	unspec := false
 	hasWrite := false
+	standaloneOverflow := false
 	highest := int64(-1)
 	for i := 1; i < len(a) && !syn; {
 		u := upper(a[i])
@@ -406,6 +410,11 @@ func bitfield(c *Ctx, a []string, ro bool) Exp {
 				syn = true
 			}
 			i += 2
+			// Redis accepts an OVERFLOW that is not followed by SET/INCRBY (it has no effect); the documented
+			// grammar does not: leave that form unspecified
+			if i >= len(a) || (upper(a[i]) != "SET" && upper(a[i]) != "INCRBY") {
+				standaloneOverflow = true
+			}
 			continue
 		}
 		signed, bits, ok := parseBfType(a[i+1])
@@ -467,6 +476,9 @@ func bitfield(c *Ctx, a []string, ro bool) Exp {
 	if unspec {
 		return Unspecified("non-canonical integer argument")
 	}
+	if standaloneOverflow {
+		return Unspecified("OVERFLOW not followed by SET/INCRBY")
+	}
 	o, e := c.str(key)
 	if e != nil {
 		return *e
@@ -475,18 +487,22 @@ func bitfield(c *Ctx, a []string, ro bool) Exp {
 	if o != nil {
 		buf = o.S
 	}
+	grew := false
 	if hasWrite {
 		if o == nil {
 			o = &Obj{T: TString}
 			c.db()[key] = o
+			grew = true
 		}
 		need := int(highest>>3) + 1
 		if len(o.S) < need {
 			o.S = append(o.S, make([]byte, need-len(o.S))...)
+			grew = true
 		}
 		buf = o.S
 		c.touch(key)
 	}
+	failed := false
 	out := make([]resp.Value, 0, len(ops))
 	for _, op := range ops {
 		raw := getUint(buf, op.off, op.bits)
@@ -529,6 +545,7 @@ func bitfield(c *Ctx, a []string, ro bool) Exp {
 			switch op.ovf {
 			case "FAIL":
 				out = append(out, Nil())
+				failed = true
 				continue
 			case "SAT":
 				if over {
@@ -556,6 +573,11 @@ func bitfield(c *Ctx, a []string, ro bool) Exp {
 		} else {
 			out = append(out, Int(target.Int64()))
 		}
+	}
+	if failed && grew {
+		// Redis zero-extends (or creates) the string for the farthest write before executing, even when that
+		// write then FAILs; whether a failed write may extend the string is left unspecified
+		return Unspecified("OVERFLOW FAIL on a write beyond the end of the string")
 	}
 	return Val(Arr(out...))
 }
